@@ -217,7 +217,8 @@ def gen(rng, index, tier):
     w = rng.choice([32, 64]) if stl else rng.choice([16, 32, 64])
     return {'program': name, 'failing': False, 'w': w, 'version': rng.choice([0, 1, 2, 3]),
             'debug': rng.random() < 0.7, 'preexisting': rng.random() < 0.5, 'seed': rng.getrandbits(32),
-            'out_symlink': rng.random() < 0.25}
+            'out_symlink': rng.random() < 0.25,
+            'dbg_kind': rng.choice(['missing_dir', 'is_dir', 'too_long', 'under_a_file']) if rng.random() < 0.15 else None}
 
 
 OUT = DBG = OUT_DIR = None
@@ -304,6 +305,21 @@ def call_assemble(case, fault, instr_n=-1, stdout_fail_at=None):
     srcs = [SRC_DIR / f"{case['program']}.fj"]
     ver = FJMVersion(case['version'])
     dbg = DBG if case['debug'] else None
+    kind = case.get('dbg_kind')
+    if kind:
+        # a debugging-file path that can never be written - a static condition of the environment, no injected fault
+        import shutil as _sh
+        _sh.rmtree(OUT_DIR / 'adir', ignore_errors=True)
+        if kind == 'missing_dir':
+            dbg = str(OUT_DIR / 'no-such-dir' / 'out.fjd')
+        elif kind == 'is_dir':
+            (OUT_DIR / 'adir').mkdir(exist_ok=True)
+            dbg = str(OUT_DIR / 'adir')
+        elif kind == 'too_long':
+            dbg = str(OUT_DIR / ('x' * 300 + '.fjd'))           # every system call on it fails with ENAMETOOLONG
+        elif kind == 'under_a_file':
+            (OUT_DIR / 'afile').write_bytes(b'x')
+            dbg = str(OUT_DIR / 'afile' / 'out.fjd')             # ENOTDIR
     _sig.arm(instr_n)
     try:
         try:
@@ -379,6 +395,16 @@ def run(case):
                 violations.append(_v('failed-assembly-left-loadable-file', {'kind': 'source-error'}, raised0, state0))
             states.add(f"source-error|{case['program']}|{state0}")
             cur = faults.setdefault('source-error:' + case['program'], [0, 0])
+            cur[0] += 1
+            cur[1] += 1 if raised0 else 0
+        elif case.get('dbg_kind'):
+            evals += 1
+            nontrivial += 1 if raised0 else 0
+            if raised0 is not None and state0 == 'loadable':
+                violations.append(_v('failed-assembly-left-loadable-file', {'kind': 'unwritable-debug-path:' + case['dbg_kind']},
+                                     raised0, state0))
+            states.add(f"unwritable-debug-path|{case['dbg_kind']}|{'raised' if raised0 else 'returned'}|{state0}")
+            cur = faults.setdefault('unwritable-debug-path:' + case['dbg_kind'], [0, 0])
             cur[0] += 1
             cur[1] += 1 if raised0 else 0
         elif raised0 is not None or state0 != 'loadable':
